@@ -94,7 +94,7 @@ def run_obligations(scratch, obls, tier, jobs=None, timeout_s=None, mem_gb=None)
             results.append(res)
             continue
         st = stats.get(o["fq"], {})
-        res["solver_s"] = round(st.get("runtime_decision_procedure_s", 0.0) + st.get("runtime_symex_s", 0.0), 3)
+        res["solver_s"] = round((st.get("runtime_decision_procedure_s") or 0.0) + (st.get("runtime_symex_s") or 0.0), 3)
         res["cbmc"] = {k: st.get(k) for k in ("vccs_generated", "vccs_remaining", "size_program_expression",
                                                "runtime_symex_s", "runtime_solver_s")}
         res["duration_s"] = round(r.get("duration_ms", 0) / 1000.0, 2)
